@@ -294,7 +294,7 @@ type docGen struct {
 }
 
 func (g *docGen) directives() string {
-	if !g.r.Chance(1, 6) {
+	if !g.r.Chance(1, 4) {
 		return ""
 	}
 	out := ""
@@ -375,6 +375,19 @@ func (g *docGen) selSet(scope string, depth int, fragDepth int) string {
 				sel += " {" + g.selSet(bt.name, depth-1, fragDepth) + "}"
 			}
 			items = append(items, sel)
+			// the same field again under the same response key: the two field nodes are merged
+			// (a resolver error carries both locations, the sub-selections are concatenated)
+			if g.budget > 0 && g.r.Chance(1, 5) {
+				g.budget--
+				again := alias + f.name + g.directives()
+				if bt.composite() {
+					again += " {" + g.selSet(bt.name, depth-1, fragDepth) + "}"
+				}
+				if g.r.Chance(1, 3) && fragDepth > 0 {
+					again = "... {" + again + "}"
+				}
+				items = append(items, again)
+			}
 		case x < 13:
 			g.budget--
 			if g.r.Chance(1, 3) {
@@ -431,7 +444,7 @@ func (g *docGen) selSet(scope string, depth int, fragDepth int) string {
 type genDoc struct {
 	text     string
 	vars     map[string]interface{} // VariableValues handed to Execute
-	env      map[string]bool        // coerced values of the declared variables
+	env      map[string]*bool       // coerced values of the declared variables (nil: an explicit null)
 	mutation bool
 }
 
@@ -452,7 +465,7 @@ func genDocument(r *rng.R, s *schemaDef, hostile bool) genDoc {
 	if len(shapes) > 0 {
 		g.mShape = rng.Pick(r, shapes)
 	}
-	out := genDoc{vars: map[string]interface{}{}, env: map[string]bool{}}
+	out := genDoc{vars: map[string]interface{}{}, env: map[string]*bool{}}
 	rootT := s.query
 	if s.mutation != "" && r.Chance(1, 2) {
 		rootT = s.mutation
@@ -490,18 +503,23 @@ func genDocument(r *rng.R, s *schemaDef, hostile bool) genDoc {
 			continue
 		}
 		val := r.Bool()
-		switch r.Intn(3) {
-		case 0: // required, given
+		switch r.Intn(10) {
+		case 0, 1, 2: // required, given
 			decls = append(decls, "$"+v+": Boolean!")
 			out.vars[v] = val
-			out.env[v] = val
-		case 1: // default, absent
+			out.env[v] = &val
+		case 3, 4, 5: // default, absent
 			decls = append(decls, fmt.Sprintf("$%s: Boolean = %v", v, val))
-			out.env[v] = val
-		default: // default, overridden
+			out.env[v] = &val
+		case 6, 7, 8: // default, overridden
 			decls = append(decls, fmt.Sprintf("$%s: Boolean! = %v", v, !val))
 			out.vars[v] = val
-			out.env[v] = val
+			out.env[v] = &val
+		default: // nullable with a default, explicitly null: passes validation and variable
+			// coercion, the directive's Boolean! argument cannot be coerced at run time
+			decls = append(decls, fmt.Sprintf("$%s: Boolean = %v", v, val))
+			out.vars[v] = nil
+			out.env[v] = nil
 		}
 	}
 	head := ""
